@@ -238,6 +238,8 @@ struct px_sink {
     bool dead;
     bool harness_ref;   /* harness still holds its own reference */
     bool unhandled_requests; /* answer UNHANDLED to register (lets the probe provide) */
+    bool sync_provide;  /* answer uref_mgr / uclock / ubuf_mgr requests itself, inside register, always with the
+                         * fixture's own (shared) managers; other types as unhandled_requests says */
     int use_after_dead;
     struct uref *held[8];   /* holding mode: buffers kept instead of freed */
     int nheld;
@@ -405,6 +407,16 @@ static int px_sink_control(struct upipe *upipe, int command, va_list args)
         struct px_srec *r = px_slog(fx, s->idx, PXS_REGISTER);
         r->req = req;
         r->req_type = req->type;
+        if (s->sync_provide && (req->type == UREQUEST_UREF_MGR || req->type == UREQUEST_UCLOCK || req->type == UREQUEST_UBUF_MGR)) {
+            if (s->nreqs < 16)
+                s->reqs[s->nreqs++] = req;
+            if (req->type == UREQUEST_UREF_MGR)
+                return urequest_provide_uref_mgr(req, uref_mgr_use(fx->uref_mgr));
+            if (req->type == UREQUEST_UCLOCK)
+                return urequest_provide_uclock(req, uclock_use(&fx->clock.uclock));
+            struct uref *ff = req->uref ? uref_dup(req->uref) : NULL;
+            return urequest_provide_ubuf_mgr(req, ubuf_mgr_use(fx->ubuf_mgr), ff);
+        }
         if (s->unhandled_requests) {
             r->result = UBASE_ERR_UNHANDLED;
             return UBASE_ERR_UNHANDLED;
@@ -418,7 +430,8 @@ static int px_sink_control(struct upipe *upipe, int command, va_list args)
         struct px_srec *r = px_slog(fx, s->idx, PXS_UNREGISTER);
         r->req = req;
         r->req_type = req->type;
-        if (s->unhandled_requests) {
+        bool mine = s->sync_provide && (req->type == UREQUEST_UREF_MGR || req->type == UREQUEST_UCLOCK || req->type == UREQUEST_UBUF_MGR);
+        if (s->unhandled_requests && !mine) {
             r->result = UBASE_ERR_UNHANDLED;
             return UBASE_ERR_UNHANDLED;
         }
@@ -617,6 +630,47 @@ static inline struct uref *px_uref(struct px_fix *fx, int seq, int size, int nse
             for (int i = 0; i < part; i++)
                 w[i] = px_octet(seq, done + i);
             ubuf_block_unmap(ubuf, 0);
+        }
+        if (uref == NULL) {
+            uref = uref_alloc(fx->uref_mgr);
+            assert(uref);
+            uref_attach_ubuf(uref, ubuf);
+        } else
+            ubase_assert(ubuf_block_append(uref->ubuf, ubuf));
+        done += part;
+    }
+    ubase_assert(uref_attr_set_unsigned(uref, seq, UDICT_TYPE_UNSIGNED, "x.seq"));
+    if (dates) {
+        uref_clock_set_cr_sys(uref, 5000 + 10 * seq);
+        uref_clock_set_cr_prog(uref, 7000 + 10 * seq);
+        uref_clock_set_cr_orig(uref, 9000 + 10 * seq);
+        uref_clock_set_cr_dts_delay(uref, 3);
+        uref_clock_set_dts_pts_delay(uref, 4);
+    }
+    return uref;
+}
+
+/* same, with explicit segment sizes; if held_p is not NULL the last segment's memory is also
+ * referenced by *held_p (a duplicate the caller keeps: the segment is shared, not writable) */
+static inline struct uref *px_uref_segs(struct px_fix *fx, int seq, const int *sizes, int nseg, bool dates, struct ubuf **held_p)
+{
+    struct uref *uref = NULL;
+    int done = 0;
+    for (int sg = 0; sg < nseg; sg++) {
+        int part = sizes[sg];
+        struct ubuf *ubuf = ubuf_block_alloc(fx->ubuf_mgr, part);
+        assert(ubuf);
+        if (part) {
+            uint8_t *w;
+            int sz = -1;
+            ubase_assert(ubuf_block_write(ubuf, 0, &sz, &w));
+            for (int i = 0; i < part; i++)
+                w[i] = px_octet(seq, done + i);
+            ubuf_block_unmap(ubuf, 0);
+        }
+        if (sg == nseg - 1 && held_p != NULL) {
+            *held_p = ubuf_dup(ubuf);
+            assert(*held_p);
         }
         if (uref == NULL) {
             uref = uref_alloc(fx->uref_mgr);
